@@ -31,7 +31,7 @@
 //	events → the names, space separated
 //	crash  → pre=<store>/<state>/<app> m=<marker for the resumed height in the WAL> pv=<h>/<r>/<s>
 //	         hs=<app commits>/<InitChain calls> post=<store>/<state>/<app> hash=<state app hash>
-//	         live=<ok|stuck> end=<last height>/<app hash>          (or hs=err:<class> / hs=panic:<class>)
+//	         live=<ok|stuck> end=<txs committed>/<app hash>          (or hs=err:<class> / hs=panic:<class>)
 //	mix    → hs=<commits>/<inits> post=<store>/<state>/<app> hash=<…>   or   hs=err:… / hs=panic:…
 //
 // oracle (independent of the model; evaluates the property statement on what the node did):
@@ -305,6 +305,32 @@ func blockTxs(bs map[string][]byte) map[int64]string {
 	return out
 }
 
+func committedSeq(bs map[string][]byte) []string {
+	st := store.NewBlockStore(loadDB(bs))
+	var out []string
+	for h := int64(1); h <= st.Height(); h++ {
+		if b := st.LoadBlock(h); b != nil {
+			for _, tx := range b.Txs {
+				out = append(out, fmt.Sprintf("%X", []byte(tx)))
+			}
+		}
+	}
+	return out
+}
+
+func expectedHash(bs map[string][]byte, upto int64) string {
+	st := store.NewBlockStore(loadDB(bs))
+	var h uint64
+	for i := int64(1); i <= upto && i <= st.Height(); i++ {
+		if b := st.LoadBlock(i); b != nil {
+			for _, tx := range b.Txs {
+				h = mixHash(h, tx)
+			}
+		}
+	}
+	return fmt.Sprintf("%X", hashBytes(h))
+}
+
 func doubleSign(log []signRec) string {
 	seen := map[string]string{}
 	for _, r := range log {
@@ -499,6 +525,18 @@ func opCrash(toks []string) (string, string) {
 		}
 	}
 	b := res.b
+	if os.Getenv("C33_DEBUG") != "" {
+		for _, m := range b.logs.msgs {
+			fmt.Fprintln(os.Stderr, "   LOG", m)
+		}
+		if res.info != nil {
+			fmt.Fprintln(os.Stderr, "   TXS", blockTxs(res.info.final.bs))
+			for _, e := range res.info.evs {
+				fmt.Fprintf(os.Stderr, " %s/%d/%s", e.phase, e.h, e.name)
+			}
+			fmt.Fprintln(os.Stderr)
+		}
+	}
 	out := fmt.Sprintf("pre=%s", tripleStr(pre))
 	if b.hsErr != "" {
 		cs.cur = &bootInfo{dead: true}
@@ -522,7 +560,8 @@ func opCrash(toks []string) (string, string) {
 	if b.post.state != pre.store {
 		viol(fmt.Sprintf("VIOL:lost-block store was %d, recovered to %d", pre.store, b.post.state))
 	}
-	if want, ok := cs.refHash[b.post.state]; ok && want != b.post.stateHash {
+	// the application hash an uncrashed node has after executing the blocks 1..post.state of this store
+	if want := expectedHash(world.bs, b.post.state); want != b.post.stateHash {
 		viol(fmt.Sprintf("VIOL:apphash at %d: %s, uncrashed %s", b.post.state, b.post.stateHash, want))
 	}
 	info := res.info
@@ -539,22 +578,29 @@ func opCrash(toks []string) (string, string) {
 		out += " live=stuck end=-"
 	} else {
 		t := readTriple(loadDB(info.final.bs), loadDB(info.final.st), loadDB(info.final.app))
-		out += fmt.Sprintf(" live=ok end=%d/%s", t.store, hashDec(t.appHash))
+		got := committedSeq(info.final.bs)
+		out += fmt.Sprintf(" live=ok end=%d/%s", len(got), hashDec(t.appHash))
 		post := blockHashes(info.final.bs)
 		for hh, x := range preBlocks {
 			if post[hh] != x {
 				viol(fmt.Sprintf("VIOL:block-changed height %d", hh))
 			}
 		}
-		got := blockTxs(info.final.bs)
-		if len(got) != len(cs.refTxs) {
-			viol(fmt.Sprintf("VIOL:chain-diverged %d blocks, uncrashed %d", len(got), len(cs.refTxs)))
-		}
-		for hh, x := range cs.refTxs {
-			if got[hh] != x {
-				viol(fmt.Sprintf("VIOL:chain-diverged height %d", hh))
-				break
+		// same chain: the script's txs, each once, in order (an undecided height may come out as an
+		// empty block after a restart — the mempool is not durable — so heights are not compared)
+		if len(got) != len(cs.script) {
+			viol(fmt.Sprintf("VIOL:chain-diverged %d txs committed, script has %d", len(got), len(cs.script)))
+		} else {
+			for i := range got {
+				if got[i] != fmt.Sprintf("%X", cs.script[i]) {
+					viol(fmt.Sprintf("VIOL:chain-diverged tx %d", i))
+					break
+				}
 			}
+		}
+		refFinal := readTriple(loadDB(cs.ref.final.bs), loadDB(cs.ref.final.st), loadDB(cs.ref.final.app))
+		if t.appHash != refFinal.appHash {
+			viol(fmt.Sprintf("VIOL:chain-diverged final app hash %s, uncrashed %s", t.appHash, refFinal.appHash))
 		}
 		if t.store != t.state || t.app != t.state || t.stateHash != t.appHash {
 			viol("VIOL:not-synced at end " + tripleStr(t))
